@@ -43,6 +43,9 @@ type Cmd struct {
 	// OutFifos are named pipes created before the run and drained by a reader; crd gets the path as its -o target
 	// (what it wrote there comes back in Result.FifoOut)
 	OutFifos []string
+	// StdoutPath, when set, is opened for writing and given to crd as its standard output (e.g. /dev/full: a device that
+	// opens but refuses every write); Result.Stdout stays empty
+	StdoutPath string
 }
 
 var panicMarkers = [][]byte{
@@ -147,6 +150,12 @@ func Run(bin string, c Cmd) Result {
 	}
 	var so, se bytes.Buffer
 	cmd.Stdout = &limitWriter{w: &so, n: 64 << 20}
+	if c.StdoutPath != "" {
+		if f, err := os.OpenFile(c.StdoutPath, os.O_WRONLY, 0); err == nil {
+			cmd.Stdout = f
+			defer f.Close()
+		}
+	}
 	cmd.Stderr = &limitWriter{w: &se, n: 8 << 20}
 	cmd.Env = append(os.Environ(), c.Env...)
 	cmd.Dir = c.Dir
